@@ -612,7 +612,7 @@ class QubitCircuit:
                 _resolve_2q_basis(basis_unit, qc_temp, temp_resolved)
                 break
         if not match:
-            qc_temp.gates = temp_resolved
+            qc_temp.gates.extend(temp_resolved)
 
         if len(basis_1q) == 2:
             temp_resolved = qc_temp.gates
